@@ -108,6 +108,7 @@ type peer struct {
 	silent       int32 // do not react at all (still logs)
 	noFinish     bool  // do not send Finish for Returns to our questions
 	noDisembargo bool
+	manualFinish map[uint32]bool // our questions whose Finish the script sends itself
 	holdBoot     bool            // keep Bootstrap questions unanswered until releaseBootstrap
 	holdMethods  map[uint16]bool // keep calls of these methods unanswered until releaseMethod
 }
@@ -115,7 +116,7 @@ type peer struct {
 func newPeer(b *bench) *peer {
 	return &peer{b: b, lk: b.lk, notify: make(chan struct{}), exited: make(chan struct{}),
 		connQ: map[uint32]*connQuestion{}, myQ: map[uint32]string{}, exports: map[uint32]int{},
-		deferred: map[uint32][]uint32{}, holdMethods: map[uint16]bool{},
+		deferred: map[uint32][]uint32{}, holdMethods: map[uint16]bool{}, manualFinish: map[uint32]bool{},
 		nextQ: 100, nextCap: 1}
 }
 
@@ -393,7 +394,7 @@ func (p *peer) reactLocked(m wireMsg) [][][]byte {
 		}
 		if st, ok := p.myQ[m.id]; ok && st == "open" {
 			p.myQ[m.id] = "returned"
-			if !p.noFinish {
+			if !p.noFinish && !p.manualFinish[m.id] {
 				p.myQ[m.id] = "finished"
 				out = append(out, mkFinish(m.id, false))
 			}
@@ -534,6 +535,16 @@ func (p *peer) send(segs [][]byte) {
 func (p *peer) sendBootstrap() uint32 {
 	q := p.newQuestion()
 	p.send(mkBootstrap(q))
+	return q
+}
+
+// newManualQuestion allocates a question id whose Finish is sent by the
+// script (so that the script can still pipeline on it after its Return).
+func (p *peer) newManualQuestion() uint32 {
+	q := p.newQuestion()
+	p.mu.Lock()
+	p.manualFinish[q] = true
+	p.mu.Unlock()
 	return q
 }
 
